@@ -19,13 +19,14 @@ LEVEL = 'exploration'
 RULE = ('chord direction x length x radius pool x rotation pool x flags; one case per arc (each checked on a t grid and '
         'derivative orders 1..5); non-trivial = every arc; distinct = distinct constructor arguments')
 ASSUMPTIONS = ['mc/refgeom.arc_center_params is the reading of F.6.5/F.6.6',
-               'end-point tolerance 1e-7*size: end angles are stored through acos, which loses half the digits near +-1 (worst measured on the repaired tree: 8.5e-9*size)',
+               'end-point tolerance 1e-12*size (worst measured on the repaired tree, angles via atan2: 3.5e-15*size; before that repair acos limited it to ~1e-8)',
                'grid only; no all-inputs claim (trigonometric code)']
 
 DIRS = [0, 45, 90, 135, 180, 225, 270, 315, 17, 200]
 DISTS = [2.0, 37.5]
 RADII = [(0.3, 0.3), (1.0, 1.0), (1.0 + 1e-12, 1.0 + 1e-12), (1.0 - 1e-12, 1.0), (1.0 + 1e-7, 1.0 + 1e-7),
-         (1.0 + 1e-4, 1.0 + 1e-4), (1.5, 1.5), (10.0, 10.0), (3.0, 1.0), (1.0, 3.0), (100.0, 1.0), (-2.0, -1.5), (1.5, 0.4)]
+         (1.0 + 1e-4, 1.0 + 1e-4), (1.5, 1.5), (10.0, 10.0), (3.0, 1.0), (1.0, 3.0), (100.0, 1.0), (-2.0, -1.5), (1.5, 0.4),
+         (1e-80, 2e-80), (1e-140, 1e-140), (1e-9, 1e-9)]
 ROTS = [0, 90, 180, 270, 30, -45, 123.4, 400, -725]
 FLAGS = [(0, 0), (0, 1), (1, 0), (1, 1)]
 TS = [0.0, 2.0 ** -52, 0.125, 0.25, 1.0 / 3.0, 0.5, 0.7, 0.875, 1.0 - 2.0 ** -53, 1.0]
@@ -66,6 +67,23 @@ def center_grid(tier):
         yield ('center', rx, ry, phi, th1, sgn * sp)
 
 
+def near_grid(tier):
+    """start and end distinct but extremely close compared with the radii"""
+    for delta in (1e-6, 1e-8, 1e-10):
+        for ang in (0.0, 70.0, 200.0):
+            for radius in ((3.0, 1.0), (2.0, 2.0)):
+                for rot in (0, 10, 90):
+                    for fl in FLAGS:
+                        yield ('near', delta, ang, radius, rot, fl)
+
+
+def near_spec(g):
+    _, delta, ang, radius, rot, fl = g
+    start = 1 + 1j
+    end = start + delta * complex(math.cos(math.radians(ang)), math.sin(math.radians(ang)))
+    return (start, complex(*radius), rot, fl[0], fl[1], end)
+
+
 def unwrap(angles):
     out = [angles[0]]
     for a in angles[1:]:
@@ -79,7 +97,10 @@ def unwrap(angles):
 
 
 def check_arc(g, acc):
-    if g[0] == 'center':
+    if g[0] == 'near':
+        spec = near_spec(g)
+        case = {'grid': [g[0], g[1], g[2], list(g[3]), g[4], list(g[5])]}
+    elif g[0] == 'center':
         spec = arc_from_center(*g[1:])
         case = {'grid': list(g)}
     else:
@@ -111,7 +132,7 @@ def check_arc(g, acc):
             acc.violation('radii_off_at_exact_fit', sig, case, observed=a.radius, expected=[rx0, ry0])
     # end points
     p0, p1 = a.point(0), a.point(1)
-    if not (abs(p0 - start) <= 1e-7 * size and abs(p1 - end) <= 1e-7 * size):
+    if not (abs(p0 - start) <= 1e-12 * size and abs(p1 - end) <= 1e-12 * size):
         acc.violation('endpoints_off', sig, case, observed=[p0, p1], expected=[start, end],
                       detail='errors %g %g (size %g)' % (abs(p0 - start), abs(p1 - end), size))
     # centre against the reference (the two candidate centres are a chord-mirror apart, so a loose
@@ -191,7 +212,7 @@ def shards(tier, seed):
 
 def run_shard(desc, tier, seed):
     acc = core.Acc()
-    for i, g in enumerate(itertools.chain(grid(tier), center_grid(tier))):
+    for i, g in enumerate(itertools.chain(grid(tier), center_grid(tier), near_grid(tier))):
         if i % 32 == desc['k']:
             check_arc(g, acc)
     return acc
@@ -216,7 +237,9 @@ def space(tier, seed):
 def replay(case):
     acc = core.ReplayAcc()
     g = case['grid']
-    if g[0] == 'center':
+    if g[0] == 'near':
+        check_arc((g[0], g[1], g[2], tuple(g[3]), g[4], tuple(g[5])), acc)
+    elif g[0] == 'center':
         check_arc(tuple(g), acc)
     else:
         check_arc((g[0], g[1], tuple(g[2]), g[3], tuple(g[4])), acc)
